@@ -265,3 +265,66 @@ Check C07_matches_reported_unaccepted_spend_key_refuted : exists (E : EdOps) (LW
 Print Assumptions C07_matches_reported_partial.
 Print Assumptions C07_reported_iff_matches_partial.
 Print Assumptions C07_matches_reported_unaccepted_spend_key_refuted.
+
+(* ==== added by the model-mutation audit (notes/MODEL_MUTANTS_B.md, Proofs/AuditC07.v) ============================= *)
+From MRS Require Import Proofs.AuditC07.
+
+(* the table of SubKeyChecker is a HashMap: when several inserted entries have the same key, `get` returns the LAST inserted one
+   (insertion order of SubKeyChecker::new: row-major, major outer, minor inner).  The scan theorems above only say "an in-range index
+   with that spend key"; this pins which one *)
+Theorem C07_table_lookup_is_last_insert : forall (E : EdOps) (t : table) k i,
+  lookup t k = Some i <-> exists pre post, t = pre ++ (k, i) :: post /\ forall j, ~ In (k, j) post.
+Proof. intros E. exact lookup_last. Qed.
+
+(* the public method SubKeyChecker::check(index, key, tx_pubkey) is the one-key check of the scan on an untagged output carrying `key` *)
+Theorem C07_subkey_check_is_check_key : forall (E : EdOps) (Hs : hs_fun) (Hb : bytes -> bytes) t v S i am P K, pk_from_slice P = Ok P ->
+  check_key Hs Hb t v S i (mk_txout am (TKey P)) K =
+    bindr (checker_check Hs t v S i P K) (fun r => match r with Some idx => Ok (Some (idx, K)) | None => Ok None end).
+Proof. intros E Hs Hb. exact (checker_check_check_key Hs Hb). Qed.
+
+(* SubKeyChecker::check, SOUNDNESS: a returned index lies in the ranges and P = Hs(8vK || varint i)*G + S_idx *)
+Theorem C07_subkey_check_sound_partial : forall (E : EdOps) (LW : EdLaws E) (Hs : hs_fun) v S a b c d t i P K idx,
+  checker_new Hs v S a b c d = Ok t -> pk_from_slice P = Ok P ->
+  checker_check Hs t v S i P K = Ok (Some idx) ->
+  in_ranges a b c d idx /\
+  exists g Sidx, from_key v S K = Ok g /\ get_spend_public_key Hs v S idx = Ok Sidx /\ one_time_key Hs (Sidx, snd g) i = Ok P.
+Proof. intros E LW Hs. exact (checker_check_sound Hs). Qed.
+
+(* SubKeyChecker::check, COMPLETENESS (accepted wallet spend key): if P is the one-time key of an in-range index under K at position i,
+   an in-range index with the same spend key is returned *)
+Theorem C07_subkey_check_complete_partial : forall (E : EdOps) (LW : EdLaws E) (Hs : hs_fun) v S a b c d t i P K idx g Sidx,
+  pk_from_slice S = Ok S -> checker_new Hs v S a b c d = Ok t -> pk_from_slice P = Ok P ->
+  in_ranges a b c d idx -> from_key v S K = Ok g -> get_spend_public_key Hs v S idx = Ok Sidx ->
+  one_time_key Hs (Sidx, snd g) i = Ok P ->
+  exists idx', checker_check Hs t v S i P K = Ok (Some idx') /\ in_ranges a b c d idx' /\
+               get_spend_public_key Hs v S idx' = Ok Sidx.
+Proof. intros E LW Hs. exact (checker_check_complete Hs). Qed.
+
+(* the key-acceptance predicate that the scan hands to the extra-field parser (raw_try_parse valid_pk_b in every statement above) is
+   exactly PublicKey::from_slice acceptance *)
+Theorem C07_extra_key_acceptance : forall (E : EdOps) k, valid_pk_b k = true <-> pk_from_slice k = Ok k.
+Proof. intros E. exact valid_pk_b_iff. Qed.
+
+Check C07_extra_key_acceptance : forall (E : EdOps) k, valid_pk_b k = true <-> pk_from_slice k = Ok k.
+Check C07_table_lookup_is_last_insert : forall (E : EdOps) (t : table) k i,
+  lookup t k = Some i <-> exists pre post, t = pre ++ (k, i) :: post /\ forall j, ~ In (k, j) post.
+Check C07_subkey_check_is_check_key : forall (E : EdOps) (Hs : hs_fun) (Hb : bytes -> bytes) t v S i am P K, pk_from_slice P = Ok P ->
+  check_key Hs Hb t v S i (mk_txout am (TKey P)) K =
+    bindr (checker_check Hs t v S i P K) (fun r => match r with Some idx => Ok (Some (idx, K)) | None => Ok None end).
+Check C07_subkey_check_sound_partial : forall (E : EdOps) (LW : EdLaws E) (Hs : hs_fun) v S a b c d t i P K idx,
+  checker_new Hs v S a b c d = Ok t -> pk_from_slice P = Ok P ->
+  checker_check Hs t v S i P K = Ok (Some idx) ->
+  in_ranges a b c d idx /\
+  exists g Sidx, from_key v S K = Ok g /\ get_spend_public_key Hs v S idx = Ok Sidx /\ one_time_key Hs (Sidx, snd g) i = Ok P.
+Check C07_subkey_check_complete_partial : forall (E : EdOps) (LW : EdLaws E) (Hs : hs_fun) v S a b c d t i P K idx g Sidx,
+  pk_from_slice S = Ok S -> checker_new Hs v S a b c d = Ok t -> pk_from_slice P = Ok P ->
+  in_ranges a b c d idx -> from_key v S K = Ok g -> get_spend_public_key Hs v S idx = Ok Sidx ->
+  one_time_key Hs (Sidx, snd g) i = Ok P ->
+  exists idx', checker_check Hs t v S i P K = Ok (Some idx') /\ in_ranges a b c d idx' /\
+               get_spend_public_key Hs v S idx' = Ok Sidx.
+
+Print Assumptions C07_extra_key_acceptance.
+Print Assumptions C07_table_lookup_is_last_insert.
+Print Assumptions C07_subkey_check_is_check_key.
+Print Assumptions C07_subkey_check_sound_partial.
+Print Assumptions C07_subkey_check_complete_partial.
